@@ -20,6 +20,26 @@ def run(ctx):
         drives=[["world-drive", "--prop", "c07", "--hist", 300 if q else 6000, "--len", 40]],
         known_matcher=lambda r: vlib.match_known(ctx, r),
     )
+    # extension beyond the listed property: least-recently-used replacement of the per-value schedules once the
+    # distinct values exceed the rule's capacity; a mismatch is recorded in the evidence, not a violation of C07
+    try:
+        vlib.model_check(ctx, "MC_Throttle", "MC_Throttle_lru.cfg", workers=8, timeout=900)
+        vlib.check_goals(ctx, "MC_Throttle", "MC_Throttle_lru.cfg", ["GoalLruFull"])
+        lb = ctx.path("lru.jsonl")
+        n = vlib.generate(ctx, "MC_Throttle", "Gen_Throttle_lru.cfg", lb, workers=1, simulate="num=%d" % (200 if q else 4000),
+                          limit=200 if q else 4000, seed=ctx.seed, tag="lru")
+        vlib.vh(ctx, ["world-replay", "--in", lb, "--out", ctx.path("lru-replay.ndjson")])
+        rej = vlib.validate_traces(ctx, TRACE[0], TRACE[1], ctx.path("lru-replay.ndjson"), "lrureplay")
+        out = ctx.path("lru-drive.ndjson")
+        vlib.vh(ctx, ["world-drive", "--prop", "c07lru", "--hist", 150 if q else 3000, "--len", 40, "--seed", ctx.seed, "--out", out])
+        rej += vlib.validate_traces(ctx, TRACE[0], TRACE[1], out, "lrudrive")
+        ctx.behaviours += n
+        ctx.notes["extension_lru_replacement"] = {
+            "behaviours_replayed": n, "histories_recorded": 150 if q else 3000, "rejected": len(rej),
+            "first_rejected": (rej[0]["history"][rej[0]["at"] - 1][:300] if rej and 0 < rej[0]["at"] <= len(rej[0]["history"]) else None)}
+        ctx.log("LRU extension: %d rejected" % len(rej))
+    except vlib.ToolError as e:
+        ctx.notes["extension_lru_replacement"] = {"tool_error": str(e)}
     # the virtual sleep stands for the real one: with the virtual clock off, sleep_for_ms really sleeps
     out = vlib.vh(ctx, ["real-sleep", "--ms", 20])
     took = int(out.strip().split("=")[1])
